@@ -139,6 +139,11 @@ def entryLm (s : UState) (e : UEntry) : Option Nat :=
 def isExpiredEntry (p : Params) (s : UState) (e : UEntry) (now : Nat) : Bool :=
   expiredAt p.ttl (entryLm s e) now || expiredAt p.tti (entryLa s e) now
 
+/-- Take the entry `e` of key `k` out of the cache: `cache.remove(k)` followed by
+`unlink_ao` and `unlink_wo` on the removed entry. -/
+def takeOut (s : UState) (k : Nat) (e : UEntry) : UState :=
+  unlinkWo (unlinkAo { s with map := AL.erase s.map k } e) e
+
 /-! ### counters -/
 
 /-- `self.entry_count -= n` (overflow-checked in a debug build). -/
@@ -157,9 +162,7 @@ def removeExpiredWo (p : Params) : Nat → UState → Nat → Nat → UState × 
       if expiredAt p.ttl n.ts s.now then
         match AL.get? s.map n.key with
         | some e =>
-          let s1 := { s with map := AL.erase s.map n.key }
-          let s2 := unlinkWo (unlinkAo s1 e) e
-          removeExpiredWo p fuel s2 (c + 1) (if p.q.d4 then w - e.weight else w + e.weight)
+          removeExpiredWo p fuel (takeOut s n.key e) (c + 1) (if p.q.d4 then w - e.weight else w + e.weight)
         | none => removeExpiredWo p fuel { s with wo := rest } c w
       else (s, c, w)
 
@@ -173,9 +176,7 @@ def removeExpiredAo (p : Params) : Nat → UState → Nat → Nat → UState × 
       if expiredAt p.tti n.ts s.now then
         match AL.get? s.map n.key with
         | some e =>
-          let s1 := { s with map := AL.erase s.map n.key }
-          let s2 := unlinkWo (unlinkAo s1 e) e
-          removeExpiredAo p fuel s2 (c + 1) (w + e.weight)
+          removeExpiredAo p fuel (takeOut s n.key e) (c + 1) (w + e.weight)
         | none => removeExpiredAo p fuel { s with prob := rest } c w
       else (s, c, w)
 
@@ -214,9 +215,7 @@ def evictLruLoop : Nat → UState → Nat → Nat → Nat → UState × Nat × N
       | n :: rest =>
         match AL.get? s.map n.key with
         | some e =>
-          let s1 := { s with map := AL.erase s.map n.key }
-          let s2 := unlinkWo (unlinkAo s1 e) e
-          evictLruLoop fuel s2 wte (c + 1) (w + e.weight)
+          evictLruLoop fuel (takeOut s n.key e) wte (c + 1) (w + e.weight)
         | none => evictLruLoop fuel { s with prob := rest } wte c w
 
 /-- `evict_lru_entries()`. -/
@@ -298,9 +297,7 @@ def removeVictims : List AoNode → UState → UState
     match AL.get? s.map v.key with
     | none => removeVictims rest (s.fail .expect)
     | some e =>
-      let s1 := { s with map := AL.erase s.map v.key }
-      let s2 := unlinkWo (unlinkAo s1 e) e
-      removeVictims rest (subEc s2 1)
+      removeVictims rest (subEc (takeOut s v.key e) 1)
 
 /-- `handle_insert(key, hash, policy_weight, timestamp)`. -/
 def handleInsert (p : Params) (s : UState) (k : Nat) (hash : UInt64) (weight : Nat)
@@ -408,8 +405,7 @@ def invalidate (p : Params) (s : UState) (k : Nat) : UState :=
   match AL.get? s.map k with
   | none => s
   | some e =>
-    let s := { s with map := AL.erase s.map k }
-    let s := unlinkWo (unlinkAo s e) e
+    let s := takeOut s k e
     let s := if p.q.d1 then s else subEc s 1
     { s with ws := s.ws - e.weight }
 
@@ -422,9 +418,7 @@ def invalidateKeys (p : Params) : List Nat → UState → Nat → Nat → UState
     match AL.get? s.map k with
     | none => invalidateKeys p rest s c w
     | some e =>
-      let s := { s with map := AL.erase s.map k }
-      let s := unlinkWo (unlinkAo s e) e
-      invalidateKeys p rest s (c + 1) (if p.q.d3 then w - e.weight else w + e.weight)
+      invalidateKeys p rest (takeOut s k e) (c + 1) (if p.q.d3 then w - e.weight else w + e.weight)
 
 def invalidateEntriesIf (p : Params) (s : UState) (pr : Pred) : UState :=
   let keys := (s.map.filter (fun kv => pr.eval kv.1 kv.2.val)).map (·.1)
